@@ -147,6 +147,9 @@ func genTree(r *Rng, o TreeOpts) *Tree {
 	if o.Orphans {
 		for i, n := 0, 1+r.Intn(2); i < n; i++ {
 			num := o.RootNum + uint64(1+r.Intn(o.N+1))
+			if r.Intn(3) == 0 {
+				num = o.RootNum // a dead-fork sibling of the root itself: same height as the starting LIB, another id
+			}
 			letter := byte('a' + usedAt[num])
 			usedAt[num]++
 			b := TBlock{ID: fmt.Sprintf("%d%c", num, letter), Parent: fmt.Sprintf("%dz", num-1), Num: num, Lib: o.RootNum}
